@@ -4,12 +4,7 @@
 ; state db and clock value T:  status / shown resource = F(request, db, T),
 ; database afterwards = E(request, db, T). Client data absent == empty.
 
-; @lit lit.resonate_timeout "resonate:timeout"
-; @lit lit.true "true"
-; @lit lit.empty ""
-(declare-const lit.resonate_timeout Str)
-(declare-const lit.true Str)
-(declare-const lit.empty Str)
+; (the literals lit.resonate_timeout, lit.true, lit.empty are declared in 00_prelude.smt2)
 
 ; ---- what a client sees of a promise
 (declare-datatypes ((PView 0)) (((mk.pview (pv.id Str) (pv.state Int) (pv.param_headers SMap) (pv.param_data Bytes)
